@@ -10,7 +10,7 @@ From SFC.GenAsset Require Import Common CommonProofs Money MoneyProofs Deposit D
 From SFC.GenTax Require Import Tax TaxProofs DividendProofs.
 From SFC.GenMarket Require PropMarket.
 From SFC.GenAsset Require PropAsset.
-From SFC.GenMain Require Import Program Classes Main Ledger MainProofs Names Conflict Balance.
+From SFC.GenMain2 Require Import Program Classes Main Ledger MainProofs Names Conflict Balance.
 Import ListNotations.
 Local Open Scope string_scope.
 Local Open Scope list_scope.
